@@ -330,7 +330,8 @@ def native_q_replay(eps, use_key, use_mask, q_terms, mask_terms):
                     cands.append((qv, mv))
         except Exception:
             pass
-        pats = [(0.0, 1.0, 2.0), (2.0, 1.0, 0.0), (1.0, 0.0, 1.0), (0.0, 0.0, 0.0), (-1.0, -1.0, 3.0), (5.0, -2.0, -2.0), (0.5, 2.0, 2.0)]
+        pats = [(0.0, 1.0, 2.0), (2.0, 1.0, 0.0), (1.0, 0.0, 1.0), (0.0, 0.0, 0.0), (-1.0, -1.0, 3.0), (5.0, -2.0, -2.0), (0.5, 2.0, 2.0),
+                (60.0, 0.0, 25.0), (0.0, 30.0, -30.0), (-20.0, 40.0, 10.0), (25.0, 60.0, 0.0)]   # Q-value gaps of tens of units, as trained critics have
         masks = [m for m in itertools.product([False, True], repeat=n) if any(m)] if use_mask else [tuple([True] * n)]
         cands += [(list(p), list(m)) for p in pats for m in masks]
         obs = jnp.zeros((2,), f32)
